@@ -352,6 +352,18 @@ def problems_of(ctx, case):
         problems.append({"clause": "never drops or invents", "diff_reader_vs_library": strict.diff(want, got)})
         return problems, "judged"
     ctx.count("compared_with_independent_reader")
+    import zlib
+    if zlib.crc32(text.encode("utf-8", "replace")) % 2 == 0:
+        # what one does with a loaded document before writing it again: look at it (printing, accessors, hashing, PROV-N)
+        for b in [d] + list(d.bundles):
+            for rec in b.get_records():
+                repr(rec), rec.args, rec.formal_attributes, rec.extra_attributes, rec.label, rec.value, hash(rec)
+                rec.get_attribute("prov:type"), rec.get_asserted_types()
+        d.get_provn()
+        ctx.count("loaded_documents_looked_at_before_writing")
+        if strict.strict(d) != lib:
+            problems.append({"clause": "looking at the loaded document changed it", "diff": strict.diff(lib, strict.strict(d))})
+            return problems, "judged"
     # same-format stability
     in_xml_space = c02.in_space(d) is None
     if fmt == "json" or in_xml_space:
